@@ -410,7 +410,7 @@ fn c10_message(chk: &Check, st: &ParameterNumberMessageScanner, si: usize, p: &P
     }
     let n = outs.len();
     let ok = n == enc.len() && outs[..n - 1].iter().all(|o| o.is_none()) && outs[n - 1] == Some(m);
-    if ok && si % 4 == 0 {
+    if ok && si % 4 == 0 && si < 100_000 {
         // "regardless of what the scanner was fed before" includes hundreds of earlier messages:
         // the same encoding 300 more times on the same scanner, each must report the original
         for round in 0..300u32 {
